@@ -34,8 +34,8 @@ def IntKind.bits : IntKind → Nat
 
 /-- the values a Go variable of kind `k` can hold -/
 def IntKind.holds (k : IntKind) (v : Int) : Bool :=
-  if k.signed then decide (-((2:Int)^(k.bits-1)) ≤ v ∧ v < (2:Int)^(k.bits-1))
-  else decide (0 ≤ v ∧ v < (2:Int)^k.bits)
+  if k.signed then ValueSpec.leB (-((2:Int)^(k.bits-1))) v && ValueSpec.ltB v ((2:Int)^(k.bits-1))
+  else ValueSpec.leB 0 v && ValueSpec.ltB v ((2:Int)^k.bits)
 
 /-! ## marshal.go:612-705  encInt / encShort / encBigInt / dec* -/
 
